@@ -39,13 +39,13 @@ ASSUMPTIONS = [
     "that a .gz suffix actually compresses is documented in the docstring but not part of the statement: it is counted (counter gz_plain), not demanded",
 ]
 BOUND = {
-    "quick": "118,462 cases: all collections of 0..2 features over the four keys (p,r,f: absent/null/1 value; q: absent/null/''/1 value) x 3 geometries (324 features, 105,301 collections); "
+    "quick": "72,454 cases: all collections of 0..2 features over the four keys (p,r,f: absent/null/1 value; q: absent/''/1 value) x 3 geometries (243 features, 59,293 collections); "
              "all collections of 3 features over each single key (absent/null/2 values; q: absent/null/''/2 values) x 3 geometries (8,559); "
              "13 base collections (0..3 features) x 30 member configurations (none; 5 names x 5 values; 'items'; 3 pairs) x position of 'features' {last, first} x indent {default,0,4} x suffix {'', .gz} (4,602)",
-    "thorough": "2,287,956 cases: quick, plus all collections of 1..2 features over the four keys with the full per-key alphabets (2 values each; q also '' and a quote/backslash/non-ASCII string; 960 features, 922,560 collections); "
-                "all collections of 3 features over every pair of keys (full alphabets) x 3 geometries (979,776); "
-                "344 base collections (all 0..1-feature collections, 19 two/three-feature collections) x 40 member configurations (adds names with a newline / empty, values true, 3, '', [], {}, five members at once) "
-                "x position {last, first} x indent {default,None,0,1,4} x suffix {'', .gz} (271,760)",
+    "thorough": "1,394,829 cases: quick, plus all collections of 1..2 features over the four keys with the full per-key alphabets (absent/null/2 values; q also '' with a quote/backslash/non-ASCII string as second value; 960 features, 922,560 collections); "
+                "all collections of 3 features over every pair of keys (absent/null/1 value, q also '') x 3 geometries (199,017); "
+                "260 base collections (all 0..1-feature collections, 16 two/three-feature collections) x 40 member configurations (adds names with a newline / empty, values true, 3, '', [], {}, five members at once) "
+                "x position {last, first} x indent {default,None,0,1,4} x suffix {'', .gz} (205,400)",
 }
 TIME_CAP = {"quick": 240, "thorough": 3000}
 
@@ -56,9 +56,15 @@ GEOMS = [None, POINT, POLYGON]
 
 ABSENT = "<absent>"
 
-# per-key value alphabets: "small" = 3 states (q: 4), "full" = 4 states (q: 5)
+# per-key value alphabets: "small" = 3 states, "mid" = small with null for q too, "full" = 4 states (q: 5)
 ALPHA = {
     "small": {
+        "p": [ABSENT, None, 0],
+        "q": [ABSENT, "", "a"],          # null for q: single-key and "full" spaces
+        "r": [ABSENT, None, False],
+        "f": [ABSENT, None, 1.5],
+    },
+    "mid": {
         "p": [ABSENT, None, 0],
         "q": [ABSENT, None, "", "a"],
         "r": [ABSENT, None, False],
@@ -153,13 +159,13 @@ def shards(tier):
         out.append(feat(KEYS, "full", 1))
     nmeta = 16 if tier == "quick" else 32
     out += [{"part": "meta", "chunk": j, "of": nmeta, "tier": tier} for j in range(nmeta)]
-    out += [feat(KEYS, "small", 2, j, 36) for j in range(36)]
+    out += [feat(KEYS, "small", 2, j, 27) for j in range(27)]
     if tier == "thorough":
         out += [feat(KEYS, "full", 2, j, 96) for j in range(96)]
     out += [feat([k], "full", 3) for k in KEYS]
     if tier == "thorough":
         for a, b in itertools.combinations(KEYS, 2):
-            out += [feat([a, b], "full", 3, j, 12) for j in range(12)]
+            out += [feat([a, b], "mid", 3, j, 4) for j in range(4)]
     return out
 
 
@@ -232,8 +238,10 @@ def read_written(path, rec):
     return blob.decode("utf-8")
 
 
-def frame_state(d):
-    return (V.frame_key(d), json.dumps(dict(d.metadata), sort_keys=True, default=repr, ensure_ascii=False))
+def frame_state(obs):
+    """Canonical state key of a GeoJSON frame, from its observation (columns in order, dtype, cells, geometry, metadata)."""
+    cols = tuple((name, obs["dtypes"][name], tuple(V.tok(x) for x in obs["cols"][name][0])) for name in obs["names"] if name != "geometry")
+    return ("GeoJSON", cols, repr(obs["geometry"]), json.dumps(obs["metadata"], sort_keys=True, default=repr, ensure_ascii=False))
 
 
 def observe(d):
@@ -273,8 +281,8 @@ def check_case(case, rec):
         rec.outcome(("read-raised", type(e).__name__))
         return
     try:
-        rec.state(frame_state(d))
         obs = observe(d)
+        rec.state(frame_state(obs))
     except Exception as e:
         rec.violation("read", "malformed-result", case, f"{type(e).__name__}: {e}")
         return
@@ -316,8 +324,8 @@ def check_case(case, rec):
         rec.outcome(("reread-raised", type(e).__name__))
         return
     try:
-        rec.state(frame_state(d2))
         obs2 = observe(d2)
+        rec.state(frame_state(obs2))
     except Exception as e:
         rec.violation("reread", "malformed-result", case, f"{type(e).__name__}: {e}")
         return
